@@ -5,8 +5,8 @@ ID = "C04"
 LEVEL = "exploration"
 RUNS = {"quick": 2000, "thorough": 60000}
 WALL_CAP = {"quick": 100, "thorough": 3000}
-RULE = ("one case = one of seven machine topologies (t1 trough+coil plunger, t2 +two-ball lock, t3 +entrance-counted VUK, t4 "
-        "mechanical plunger, t5 +ball save, t6 two independent feeds, t7 three-stage chain) with 1-4 balls, a swarm-drawn eject "
+RULE = ("one case = one of eight machine topologies (t1 trough+coil plunger, t2 +two-ball lock, t3 +entrance-counted VUK, t4 "
+        "mechanical plunger, t5 +ball save, t6 two independent feeds, t7 three-stage chain, t8 two-ball launcher) with 1-4 balls, a swarm-drawn eject "
         "failure rate and scheduler knobs, and a history of game actions (start, drain, playfield hit, multiball add, lock "
         "shot/release, manual plunge, end game) with tape-chosen timing; the physical world (PinWorld) answers coil "
         "commands with success / fall-back / stuck / late arrival. Non-trivial = reached a probe (drain, multiball add, "
